@@ -24,6 +24,7 @@ META = {
         "C20.T2 every member name read from a decoded message exists in the declared structure of that stream/function",
         "C20.T3 role wiring: ACTIVE -> TcpClientConnection, PASSIVE -> TcpServerConnection; enable() enables the communication state before the link; both roles handle S1F13 in WAIT_CRA and in COMMUNICATING",
         "C20.T4 endpoints draw their first system bytes at random (host requests and equipment primaries are told apart by system bytes only); the stop request of a closed connection is not carried into the next one; re-arming after a peer close (shared with C09.P2/P3)",
+        "C20.T4 clauses decided by rules of other properties: disable() lowers the enabled flag before the link is closed (C09.W2), a refused S2F15 writes nothing (C13.P2), control-state events are registered on the E30 transitions (C11.P3)",
     ],
     "does_not_decide": ["that both sides REACH the communicating state within a bounded time under every schedule (needs a scheduler - no static argument in reach)", "exactly-once delivery of events across the link", "recovery timing after disable/enable"],
     "assumptions": ["C05, C07, C08, C12, C13 hold for each endpoint on its own"],
@@ -261,6 +262,18 @@ def run(ctx):
     from .c05 import check_control
 
     report.share(ctx, "C20.T3", check_control, only={"C05.P3"})
+    # "after either side is disabled and re-enabled they reach communication again": disable() lowers the enabled flag
+    # before it closes the link, so the closing link does not re-arm the connect thread (C09.W2)
+    from .c09 import check_idle_and_disable
+
+    report.share(ctx, "C20.T4", check_idle_and_disable)
+    # "every host service call returns what the equipment holds": a refused S2F15 changes no constant (C13.P2); the
+    # control-state events the host subscribes to are raised on the transitions E30 names (C11.P3)
+    from .c11 import check_events
+    from .c13 import check_s02f15
+
+    report.share(ctx, "C20.T4", check_s02f15)
+    report.share(ctx, "C20.T4", check_events)
     classes = check_coverage(ctx)
     check_member_reads(ctx, classes)
     check_roles(ctx)
